@@ -277,10 +277,40 @@ async fn controller(script: Vec<Op>, log: Arc<Log>, all_gates: Gates) {
                     Err(std::sync::TryLockError::Poisoned(_)) => true,
                     Err(std::sync::TryLockError::WouldBlock) => false,
                 };
+                // `is_mutex_poisoned()` is asked on a helper thread with a deadline: a read-only
+                // accessor must never wait for the mutex (on correct code it answers at once, so
+                // the deadline is never near; a harness deadlock is avoided if it does wait)
+                let ask = |wr: &Arc<SyncWrapper<Probe>>| -> Option<bool> {
+                    let w2 = wr.clone();
+                    let (tx, rx) = std::sync::mpsc::channel();
+                    let h = std::thread::spawn(move || {
+                        let p = w2.is_mutex_poisoned();
+                        let _ = tx.send(p);
+                    });
+                    match rx.recv_timeout(Duration::from_secs(3)) {
+                        Ok(p) => {
+                            let _ = h.join();
+                            Some(p)
+                        }
+                        Err(_) => None,
+                    }
+                };
                 if free {
                     let n = l.events;
-                    l.lines.push("probe".into());
-                    l.lines.push(format!("obs events={n} poisoned={}", wr.is_mutex_poisoned() as u8));
+                    match ask(wr) {
+                        Some(p) => {
+                            l.lines.push("probe".into());
+                            l.lines.push(format!("obs events={n} poisoned={}", p as u8));
+                        }
+                        None => l.lines.push("error the async thread would block: is_mutex_poisoned() did not answer within 3 s (it waits for the wrapper's mutex)".into()),
+                    }
+                } else {
+                    // a closure is running right now: the accessor must still answer at once
+                    drop(l);
+                    if ask(wr).is_none() {
+                        let mut l = log.0.lock().unwrap_or_else(|e| e.into_inner());
+                        l.lines.push("error the async thread would block: is_mutex_poisoned() did not answer within 3 s while a closure was running (it waits for the wrapper's mutex)".into());
+                    }
                 }
             }
             Op::DropW => {
